@@ -7,6 +7,9 @@ package main
 //	reset                          new empty directory, no DB
 //	open <vol> <load> <dp> <fp> <mp> <mpn>
 //	put/putext/del/flags/sync/nosync/defrag/close/get/browse/browseall/peek/count   (as oracle_c19)
+//	par <item,item,…>              every item is ONE call made by its own goroutine, all released together (the store is used by
+//	                               many goroutines through one lock): g<key> Get, c Count, f<key>:<flags> ApplyFlags,
+//	                               p<key>:<hex|-> Put, d<key> Del -> <reply of item 1>|<reply of item 2>|… ; state
 //	lastorder                      -> <k,k,…|->  the keys the last browse / browseall / peek handed to the walk function, in order
 //	snap <0|1>                     copy the directory at every vhook.Point of the following requests
 //	crash                          -> <tag>=<snapshot dir>;…  for the last state-changing request
@@ -24,9 +27,12 @@ import (
 	"io"
 	"os"
 	"path/filepath"
+	"runtime"
 	"sort"
 	"strconv"
 	"strings"
+	"sync"
+	"sync/atomic"
 
 	"github.com/piotrnar/gocoin/lib/others/qdb"
 	"github.com/piotrnar/gocoin/lib/others/vhook"
@@ -378,6 +384,77 @@ func (w *worker) handle(t []string) string {
 		n := w.db.Count()
 		w.db.BrowseAll(f)
 		return mut(strconv.Itoa(n) + " " + kvStr(m))
+	case "par":
+		// concurrent use: one goroutine per item, released together by closing a channel. The caller lists commuting
+		// calls only (distinct keys, Count only next to reads), so the replies and the state after the batch are those of
+		// the same calls made one after the other, whatever the schedule.
+		w.beginRead()
+		if len(t) != 2 {
+			return "bad-op"
+		}
+		items := strings.Split(t[1], ",")
+		reps := make([]string, len(items))
+		for _, it := range items {
+			if it == "" || !strings.ContainsRune("gcfpd", rune(it[0])) {
+				return "bad-op"
+			}
+		}
+		db := w.db
+		// release: every goroutine announces itself and then spins on a flag, so that the calls really start together
+		// (a closed channel wakes the goroutines one after the other, microseconds apart)
+		var arrived, start int32
+		var wg sync.WaitGroup
+		for i, it := range items {
+			wg.Add(1)
+			go func(i int, it string) {
+				defer wg.Done()
+				arg := it[1:]
+				ext := ""
+				if c := strings.IndexByte(arg, ':'); c >= 0 {
+					arg, ext = arg[:c], arg[c+1:]
+				}
+				k := key(arg)
+				var fl uint64
+				var v []byte
+				switch it[0] {
+				case 'f':
+					fl, _ = strconv.ParseUint(ext, 10, 32)
+				case 'p':
+					v = val(ext)
+				}
+				atomic.AddInt32(&arrived, 1)
+				for n := 0; atomic.LoadInt32(&start) == 0; n++ {
+					if n&0xfff == 0xfff {
+						runtime.Gosched()
+					}
+				}
+				switch it[0] {
+				case 'g':
+					if g := db.Get(k); g == nil {
+						reps[i] = "none"
+					} else {
+						reps[i] = "some " + vlib.Hex(g)
+					}
+				case 'c':
+					reps[i] = strconv.Itoa(db.Count())
+				case 'f':
+					db.ApplyFlags(k, uint32(fl))
+					reps[i] = "ok"
+				case 'p':
+					db.Put(k, v)
+					reps[i] = "ok"
+				case 'd':
+					db.Del(k)
+					reps[i] = "ok"
+				}
+			}(i, it)
+		}
+		for atomic.LoadInt32(&arrived) != int32(len(items)) {
+			runtime.Gosched()
+		}
+		atomic.StoreInt32(&start, 1)
+		wg.Wait()
+		return mut(strings.Join(reps, "|"))
 	case "lastorder": // the keys the last browse / browseall / peek handed to the walk function, in that order
 		if len(w.order) == 0 {
 			return "-"
